@@ -7,6 +7,8 @@ REGISTRY: dict = {}
 
 def rule(rid: str):
     def deco(fn):
+        if rid in REGISTRY:
+            raise RuntimeError(f"rule {rid} is defined twice ({REGISTRY[rid].__module__} and {fn.__module__})")
         REGISTRY[rid] = fn
         fn.rule_id = rid
         return fn
